@@ -35,7 +35,17 @@ def _ensure_integer_ids(df: pd.DataFrame) -> pd.DataFrame:
             original_id: new_id for new_id, original_id in enumerate(unique_ids, start=1)
         }
         df["id"] = df["id"].map(id_mapping)
-        df["parent_id"] = df["parent_id"].map(id_mapping).astype(pd.Int64Dtype())
+        parent_ids = df["parent_id"]
+        new_parent_ids = parent_ids.map(id_mapping)
+        # an empty cell or -1 means "no parent"; anything else must be a known id
+        is_root = parent_ids.isna() | parent_ids.isin([-1, "-1", ""])
+        unknown = new_parent_ids.isna() & ~is_root
+        if unknown.any():
+            raise ValueError(
+                "Some parent_id values do not match any id: "
+                f"{parent_ids[unknown].unique().tolist()}"
+            )
+        df["parent_id"] = new_parent_ids.astype(pd.Int64Dtype())
 
     return df
 
